@@ -1,6 +1,6 @@
 //! C17 — parsed frame structures re-serialise identically and agree with the decoder.
 
-use super::c01::{EncCase, enc_case_strategy, strip_digits};
+use super::c01::{EncCase, enc_case_strategy, strip_digits, tonal_case_strategy};
 use super::c03::{GenCase, frame_to_pcm, gen_case_strategy, interleave};
 use super::c04::{MutCase, build_mutant, mut_case_strategy};
 use crate::codec;
@@ -216,6 +216,7 @@ pub fn run(ctx: &Ctx) {
     ctx.search(&Structural, n, || {
         prop_oneof![
             2 => enc_case_strategy(false, 3).prop_map(StructCase::Enc),
+            1 => tonal_case_strategy().prop_map(StructCase::Enc),
             3 => gen_case_strategy(600).prop_map(StructCase::Gen),
             4 => mut_case_strategy().prop_map(StructCase::Mut),
         ]
